@@ -8,7 +8,7 @@ From BNP Require Import Base.Prims Model.C01.
 Import ListNotations.
 Open Scope Z_scope.
 
-Inductive coltype := CStr | CInt | CStrand.
+Inductive coltype := CStr | CInt | CStrand | CFloat | COptInt.
 
 Definition is_digit (c : Z) : bool := (48 <=? c) && (c <=? 57).
 Definition int_text_ok (t : list Z) : bool :=
@@ -19,8 +19,26 @@ Definition int_text_ok (t : list Z) : bool :=
   end.
 Definition strand_ok (t : list Z) : bool :=
   match t with [c] => (c =? 43) || (c =? 45) || (c =? 46) | _ => false end.
+(* decimal text: optional sign, digits with at most one '.', at least one digit (strops._decimal_str_to_float) *)
+Definition unsigned_part (t : list Z) : list Z :=
+  match t with c :: r => if (c =? 45) || (c =? 43) then r else t | [] => [] end.
+Definition count_if (f : Z -> bool) (t : list Z) : nat := length (filter f t).
+Definition dec_text_ok (t : list Z) : bool :=
+  let b := unsigned_part t in
+  forallb (fun c => is_digit c || (c =? 46)) b && Nat.leb (count_if (fun c => c =? 46) b) 1 && Nat.leb 1 (count_if is_digit b).
+(* float text: a decimal text, or <decimal>e<integer> (strops._scientific_str_to_float) *)
+Definition float_text_ok (t : list Z) : bool :=
+  match split_on 101 t with
+  | [m] => dec_text_ok m
+  | [m; e] => dec_text_ok m && int_text_ok e
+  | _ => false
+  end.
+(* Optional[int]: empty or the placeholder '.' (strops.parse_with_missing), else an integer text *)
+Definition optint_ok (t : list Z) : bool :=
+  match t with [] => true | [46] => true | _ => int_text_ok t end.
 Definition field_ok (ty : coltype) (t : list Z) : bool :=
-  match ty with CStr => true | CInt => int_text_ok t | CStrand => strand_ok t end.
+  match ty with CStr => true | CInt => int_text_ok t | CStrand => strand_ok t
+              | CFloat => float_text_ok t | COptInt => optint_ok t end.
 Fixpoint fields_ok (tys : list coltype) (fs : list (list Z)) : bool :=
   match tys, fs with
   | [], _ => true
